@@ -52,6 +52,7 @@ __CPROVER_ensures(ge_ok1(r) && gej_ok(a) && r->infinity == __CPROVER_old(a->infi
 int g_xo_n; secp256k1_fe g_xo_n0, g_xo_d0, g_xo_r0; secp256k1_scalar g_xo_q0; int g_xo_known0, g_xo_has_d0;
 static int secp256k1_ecmult_const_xonly(secp256k1_fe *r, const secp256k1_fe *n, const secp256k1_fe *d, const secp256k1_scalar *q, int known_on_curve)
 __CPROVER_requires(__CPROVER_w_ok(r, sizeof(*r)) && __CPROVER_r_ok(n, sizeof(*n)) && fe_mag(n, 8) && (d == NULL || (__CPROVER_r_ok(d, sizeof(*d)) && fe_mag(d, 8))) && __CPROVER_r_ok(q, sizeof(*q)) && scalar_ok(q))
+__CPROVER_requires((q->d[0] | q->d[1] | q->d[2] | q->d[3]) != 0)   /* src/ecmult_const.h: "q must not be zero" */
 __CPROVER_assigns(*r, g_xo_n, g_xo_n0, g_xo_d0, g_xo_r0, g_xo_q0, g_xo_known0, g_xo_has_d0)
 __CPROVER_ensures(fe_mag(r, 1) && (__CPROVER_return_value == 0 || __CPROVER_return_value == 1) && g_xo_n == __CPROVER_old(g_xo_n) + 1)
 __CPROVER_ensures(__CPROVER_old(g_xo_n) == 0 ==> (FE_EQ_OLD(g_xo_n0, *n) && g_xo_has_d0 == (d != NULL) && (d == NULL || FE_EQ_OLD(g_xo_d0, *d)) && SC_EQ_OLD(g_xo_q0, *q) && g_xo_known0 == known_on_curve && FE_EQ(g_xo_r0, *r)))
@@ -67,22 +68,26 @@ __CPROVER_ensures(__CPROVER_old(g_frac_n) == 0 ==> (FE_EQ_OLD(g_frac_u0, *u) && 
 __CPROVER_ensures(__CPROVER_old(g_frac_n) != 0 ==> (FE_KEEP(g_frac_u0) && FE_KEEP(g_frac_t0) && FE_KEEP(g_frac_xn0) && FE_KEEP(g_frac_xd0)))
 ;
 /* ---- field multiplication / squaring / inversion (decode unit): operands of magnitude <= 8, result magnitude 1.
- *      Logged: operand of the 2nd squaring, first operand of the 2nd multiplication, operands/result of the LAST
- *      multiplication and the inversion (enough to observe the u=0 / t=0 remaps and the final x = xn * (1/xd)). ---- */
-int g_sqr_n; secp256k1_fe g_sqr_a0, g_sqr_r0, g_sqr_a1;
+ *      Calls are identified by operand VALUE, never by call number or operand position: the harness sets WATCH
+ *      field elements g_fw[0..3] (never assigned by code or contracts); flag g_fsaw[i] becomes 1 when any
+ *      multiplication or squaring has an operand (either one) whose limbs equal g_fw[i].  The LATEST multiplication
+ *      and the latest inversion are logged (operands as an unordered pair for the harness). ---- */
+secp256k1_fe g_fw0, g_fw1, g_fw2, g_fw3; int g_fsaw0, g_fsaw1, g_fsaw2, g_fsaw3;
+#define FSAW1(i, op) (g_fsaw##i == (__CPROVER_old(g_fsaw##i) || FE_EQ_OLD(g_fw##i, *op)))
+#define FSAW2(i, op1, op2) (g_fsaw##i == (__CPROVER_old(g_fsaw##i) || FE_EQ_OLD(g_fw##i, *op1) || FE_EQ_OLD(g_fw##i, *op2)))
+int g_sqr_n;
 static void secp256k1_fe_impl_sqr(secp256k1_fe *r, const secp256k1_fe *a)
 __CPROVER_requires(__CPROVER_w_ok(r, sizeof(*r)) && __CPROVER_r_ok(a, sizeof(*a)) && fe_mag(a, 8))
-__CPROVER_assigns(*r, g_sqr_n, g_sqr_a0, g_sqr_r0, g_sqr_a1)
+__CPROVER_assigns(*r, g_sqr_n, g_fsaw0, g_fsaw1, g_fsaw2, g_fsaw3)
 __CPROVER_ensures(fe_mag(r, 1) && g_sqr_n == __CPROVER_old(g_sqr_n) + 1)
-__CPROVER_ensures(__CPROVER_old(g_sqr_n) == 0 ? (FE_EQ_OLD(g_sqr_a0, *a) && FE_EQ(g_sqr_r0, *r)) : (FE_KEEP(g_sqr_a0) && FE_KEEP(g_sqr_r0)))
-__CPROVER_ensures(__CPROVER_old(g_sqr_n) == 1 ? FE_EQ_OLD(g_sqr_a1, *a) : FE_KEEP(g_sqr_a1))
+__CPROVER_ensures(FSAW1(0, a) && FSAW1(1, a) && FSAW1(2, a) && FSAW1(3, a))
 ;
-int g_fmul_n; secp256k1_fe g_fmul_a1, g_fmul_al, g_fmul_bl, g_fmul_rl;
+int g_fmul_n; secp256k1_fe g_fmul_al, g_fmul_bl, g_fmul_rl;
 static void secp256k1_fe_impl_mul(secp256k1_fe *r, const secp256k1_fe *a, const secp256k1_fe * SECP256K1_RESTRICT b)
 __CPROVER_requires(__CPROVER_w_ok(r, sizeof(*r)) && __CPROVER_r_ok(a, sizeof(*a)) && __CPROVER_r_ok(b, sizeof(*b)) && fe_mag(a, 8) && fe_mag(b, 8) && r != b && a != b)
-__CPROVER_assigns(*r, g_fmul_n, g_fmul_a1, g_fmul_al, g_fmul_bl, g_fmul_rl)
+__CPROVER_assigns(*r, g_fmul_n, g_fmul_al, g_fmul_bl, g_fmul_rl, g_fsaw0, g_fsaw1, g_fsaw2, g_fsaw3)
 __CPROVER_ensures(fe_mag(r, 1) && g_fmul_n == __CPROVER_old(g_fmul_n) + 1)
-__CPROVER_ensures(__CPROVER_old(g_fmul_n) == 1 ? FE_EQ_OLD(g_fmul_a1, *a) : FE_KEEP(g_fmul_a1))
+__CPROVER_ensures(FSAW2(0, a, b) && FSAW2(1, a, b) && FSAW2(2, a, b) && FSAW2(3, a, b))
 __CPROVER_ensures(FE_EQ_OLD(g_fmul_al, *a) && FE_EQ_OLD(g_fmul_bl, *b) && FE_EQ(g_fmul_rl, *r))
 ;
 int g_finv_n; secp256k1_fe g_finv_x0, g_finv_r0;
@@ -118,17 +123,34 @@ __CPROVER_ensures(gej_ok(r) && g_gen_n == __CPROVER_old(g_gen_n) + 1)
 __CPROVER_ensures(__CPROVER_old(g_gen_n) == 0 ==> (SC_EQ_OLD(g_gen_a0, *a) && FE_EQ(g_gen_r0.x, r->x) && FE_EQ(g_gen_r0.y, r->y) && FE_EQ(g_gen_r0.z, r->z) && g_gen_r0.infinity == r->infinity))
 __CPROVER_ensures(__CPROVER_old(g_gen_n) != 0 ==> (SC_KEEP(g_gen_a0) && FE_KEEP(g_gen_r0.x) && FE_KEEP(g_gen_r0.y) && FE_KEEP(g_gen_r0.z) && g_gen_r0.infinity == __CPROVER_old(g_gen_r0.infinity)))
 ;
+/* ---- SHA-256 write with CONTENT flags (create / encode gate units, used INSTEAD of hash_log.h there): the
+ *      encoder's randomness derivation is explicitly not stable across versions (include/secp256k1_ellswift.h),
+ *      so no stream layout is demanded - only that a write of at least 32 bytes STARTING with the watched
+ *      32-byte strings (the secret key / the caller's randomness) happened. ---- */
+#ifdef C18_WRITE_FLAGS
+unsigned char g_wk_a[32], g_wk_b[32]; int g_saw_a, g_saw_b;      /* g_wk_*: set by the harness only */
+#define WK4(w, i) (w[i] == data[i] && w[i+1] == data[i+1] && w[i+2] == data[i+2] && w[i+3] == data[i+3])
+#define WK32(w) (WK4(w, 0) && WK4(w, 4) && WK4(w, 8) && WK4(w, 12) && WK4(w, 16) && WK4(w, 20) && WK4(w, 24) && WK4(w, 28))
+static void secp256k1_sha256_write(const secp256k1_hash_ctx *hash_ctx, secp256k1_sha256 *hash, const unsigned char *data, size_t len)
+__CPROVER_requires(__CPROVER_rw_ok(hash, sizeof(*hash)) && (len == 0 || __CPROVER_r_ok(data, len)) && hash_ctx != NULL)
+__CPROVER_assigns(*hash, g_saw_a, g_saw_b)
+__CPROVER_ensures(g_saw_a == (__CPROVER_old(g_saw_a) || (len >= 32 ? WK32(g_wk_a) : 0)))
+__CPROVER_ensures(g_saw_b == (__CPROVER_old(g_saw_b) || (len >= 32 ? WK32(g_wk_b) : 0)))
+;
+#else
+int g_saw_a, g_saw_b;
+#endif
 /* ---- the ElligatorSwift encoder search (create / encode gate units): writes u32 and a NORMALISED t; logs the point
- *      and the hasher it was given and what it wrote.  Its loop (PRNG, branch cycling, inverse map) is not under
- *      contract in this build. ---- */
-int g_es_n; secp256k1_fe g_es_px, g_es_py, g_es_t; uint64_t g_es_hbytes; unsigned char g_es_u[32];
+ *      it was given, what it wrote, and which watched strings had been absorbed by then.  Its loop (PRNG, branch
+ *      cycling, inverse map) is not under contract in this build. ---- */
+int g_es_n; secp256k1_fe g_es_px, g_es_py, g_es_t; int g_es_saw_a, g_es_saw_b; unsigned char g_es_u[32];
 #define ESU4(i) g_es_u[i] == u32[i] && g_es_u[i+1] == u32[i+1] && g_es_u[i+2] == u32[i+2] && g_es_u[i+3] == u32[i+3]
 static void secp256k1_ellswift_elligatorswift_var(const secp256k1_context *ctx, unsigned char *u32, secp256k1_fe *t, const secp256k1_ge *p, const secp256k1_sha256 *hasher)
 __CPROVER_requires(ctx != NULL && __CPROVER_w_ok(u32, 32) && __CPROVER_w_ok(t, sizeof(*t)) && __CPROVER_r_ok(p, sizeof(*p)) && __CPROVER_r_ok(hasher, sizeof(*hasher)))
 __CPROVER_requires(fe_canon(&p->x) && fe_canon(&p->y))
-__CPROVER_assigns(__CPROVER_object_upto(u32, 32), *t, g_es_n, g_es_px, g_es_py, g_es_t, g_es_hbytes, g_es_u)
+__CPROVER_assigns(__CPROVER_object_upto(u32, 32), *t, g_es_n, g_es_px, g_es_py, g_es_t, g_es_saw_a, g_es_saw_b, g_es_u)
 __CPROVER_ensures(fe_canon(t) && g_es_n == __CPROVER_old(g_es_n) + 1)
-__CPROVER_ensures(FE_EQ(g_es_px, p->x) && FE_EQ(g_es_py, p->y) && FE_EQ(g_es_t, *t) && g_es_hbytes == hasher->bytes)
+__CPROVER_ensures(FE_EQ(g_es_px, p->x) && FE_EQ(g_es_py, p->y) && FE_EQ(g_es_t, *t) && g_es_saw_a == g_saw_a && g_es_saw_b == g_saw_b)
 __CPROVER_ensures(ESU4(0) && ESU4(4) && ESU4(8) && ESU4(12) && ESU4(16) && ESU4(20) && ESU4(24) && ESU4(28))
 ;
 #endif
